@@ -34,7 +34,7 @@ use zcash_pool_migration::engine::{
 };
 use zcash_pool_migration::scheduling::SchedulingParams;
 use zcash_pool_migration_memory::{regtest_network, spending_key, CommitMock, MockBackend};
-use zcash_pool_migration::preparation::PreparationPlan;
+use zcash_pool_migration::preparation::{PrepInput, PrepOutput, PrepTransaction, PreparationPlan};
 use zcash_pool_migration::satisfiability::{
     advance_migration, AdvanceConfig, DuenessTargets, ReorgSettleDepth, ReplanThreshold,
     StepSatisfiability, UnsatisfiableCause, UnsatisfiableKind,
@@ -284,34 +284,74 @@ fn build_tx(s: &TxSpec) -> MigrationTransaction {
     MigrationTransaction::from_parts(
         MigrationTransferId::new(s.id),
         s.kind,
-        vec![1, 2, 3, s.id as u8],
+        (0..(3 + s.id % 5)).map(|k| (k as u8).wrapping_mul(37).wrapping_add(s.id as u8)).collect(),
         s.deps.iter().map(|d| MigrationTransferId::new(*d)).collect(),
         h(s.sched),
         h(s.expiry),
         s.anchor.map(h),
         txid,
         state,
-        None,
+        if s.id % 3 == 1 { Some(zcash_pool_migration::engine::MigrationLockOwner::from_bytes([s.id as u8 ^ 0x5a; 32])) } else { None },
         s.unsat.map(|(a, k)| (h(a), k)),
-        vec![s.nf.unwrap_or([s.id as u8; 32])],
+        match s.nf {
+            Some(nf) => vec![nf],
+            None => (0..(1 + s.id % 2)).map(|k| [(s.id as u8).wrapping_add(k as u8 * 101); 32]).collect(),
+        },
         s.fail.map(h),
     )
 }
+static mut PLAN_LCG: u64 = 0x1234_5678_9abc_def1;
 fn build_state(status: MigrationStatus, txs: &[TxSpec], cross: &[u64], thr: u8, ivl: u32) -> MigrationState {
     let z = |v: u64| Zatoshis::const_from_u64(v);
     let den = DenominationPlan::from_stored_parts(
         cross.iter().map(|v| z(*v)).collect(),
         z(15_000),
-        None,
-        z(0),
+        if cross.len() % 2 == 1 { Some(z(777)) } else { None },
+        z(cross.len() as u64 * 13),
         z(cross.iter().sum::<u64>()),
         z(cross.iter().sum::<u64>()),
     )
     .expect("denomination plan");
+    // a small preparation plan, different from state to state (deterministic stream)
+    let mut next = || -> u64 {
+        unsafe {
+            PLAN_LCG = PLAN_LCG.wrapping_mul(6364136223846793005).wrapping_add(1442695040888963407);
+            PLAN_LCG >> 33
+        }
+    };
+    let nl = (next() % 4) as usize;
+    let mut layers: Vec<Vec<PrepTransaction>> = Vec::new();
+    for l in 0..nl {
+        let nt = 1 + (next() % 3) as usize;
+        let mut lay = Vec::new();
+        for _ in 0..nt {
+            let ni = (next() % 3) as usize;
+            let no = if ni == 0 { 1 + (next() % 2) as usize } else { (next() % 3) as usize };
+            let ins = (0..ni)
+                .map(|_| {
+                    if l == 0 || next() % 2 == 0 {
+                        PrepInput::Wallet { index: (next() % 9) as usize, value: z(next() % 100_000) }
+                    } else {
+                        PrepInput::Prior { layer: (next() % l as u64) as usize, transaction: (next() % 3) as usize, output: (next() % 3) as usize, value: z(next() % 100_000) }
+                    }
+                })
+                .collect();
+            let outs = (0..no)
+                .map(|_| match next() % 3 {
+                    0 => PrepOutput::Funding(z(next() % 100_000)),
+                    1 => PrepOutput::Intermediate(z(next() % 100_000)),
+                    _ => PrepOutput::Change(z(next() % 100_000)),
+                })
+                .collect();
+            lay.push(PrepTransaction::from_parts(ins, outs));
+        }
+        layers.push(lay);
+    }
+    let direct: Vec<(usize, Zatoshis)> = (0..(next() % 3)).map(|_| ((next() % 7) as usize, z(next() % 50_000))).collect();
     MigrationState::from_parts(
         status,
         den,
-        PreparationPlan::from_parts(vec![], vec![]),
+        PreparationPlan::from_parts(layers, direct),
         txs.iter().map(build_tx).collect(),
         AnchorBucketInterval::custom(NonZeroU32::new(ivl).unwrap()),
         ReplanThreshold::new(thr).unwrap(),
@@ -648,17 +688,69 @@ struct Persist<'a> {
     conn: &'a mut rusqlite::Connection,
     account: zcash_client_sqlite::AccountUuid,
     net: zcash_protocol::local_consensus::LocalNetwork,
-    tables: &'a (String, String, String), // migrations, transactions, transaction_deps
+    tables: &'a Vec<String>, // migrations, transactions, deps, crossing, prep in, prep out, direct, nullifiers
     mem: MockBackend,
 }
 
-/// What `replace_migration` wrote, read with plain SELECTs in insertion order: the newest parent
-/// row's status / threshold / interval and its transaction and dependency rows, as Coq terms.
-fn dump_rows(conn: &rusqlite::Connection, t: &(String, String, String)) -> Result<String, rusqlite::Error> {
-    let (mid, status, thr, ivl): (i64, String, i64, i64) = conn.query_row(
-        &format!("SELECT id, status, replan_threshold, anchor_bucket_interval FROM {} ORDER BY id DESC LIMIT 1", t.0),
+fn fnv(b: &[u8]) -> String {
+    let mut hsh: u64 = 0xcbf29ce484222325;
+    for x in b {
+        hsh ^= *x as u64;
+        hsh = hsh.wrapping_mul(0x100000001b3);
+    }
+    format!("({}, {})", b.len(), hsh)
+}
+
+/// The parts of the in-memory state the Coq state record does not carry: per-transaction payloads
+/// and the denomination / preparation plan.
+fn p_extra(s: &MigrationState) -> String {
+    let pays = list(s.transactions().iter().map(|t| {
+        format!(
+            "MkPay {} {} {}",
+            fnv(t.pczt()),
+            opt(t.lock_owner().map(|o| fnv(o.as_bytes()))),
+            list(t.spend_nullifiers().iter().map(|n| fnv(n)))
+        )
+    }));
+    let d = s.denominations();
+    let layers = list(s.preparation().layers().iter().map(|ly| {
+        list(ly.iter().map(|t| {
+            format!(
+                "({}, {})",
+                list(t.inputs().iter().map(|i| match i {
+                    PrepInput::Wallet { index, value } => format!("PWallet {} {}", index, value.into_u64()),
+                    PrepInput::Prior { layer, transaction, output, value } => format!("PPrior {} {} {} {}", layer, transaction, output, value.into_u64()),
+                })),
+                list(t.outputs().iter().map(|o| match o {
+                    PrepOutput::Funding(v) => format!("(RFunding, {})", v.into_u64()),
+                    PrepOutput::Intermediate(v) => format!("(RIntermediate, {})", v.into_u64()),
+                    PrepOutput::Change(v) => format!("(RChange, {})", v.into_u64()),
+                }))
+            )
+        }))
+    }));
+    format!(
+        "{} (MkPlan {} {} {} {} {} {} {})",
+        pays,
+        d.note_fee_buffer().into_u64(),
+        opt(d.change().map(|c| format!("{}", c.into_u64()))),
+        d.prep_fees().into_u64(),
+        d.total_input().into_u64(),
+        d.total_migratable().into_u64(),
+        layers,
+        list(s.preparation().direct_funding_notes().iter().map(|(i, v)| format!("({}, {})", i, v.into_u64())))
+    )
+}
+
+/// What `replace_migration` wrote, read with plain SELECTs in insertion order from ALL the
+/// normalised tables of the newest migration, as a Coq [tables] term.
+fn dump_rows(conn: &rusqlite::Connection, t: &Vec<String>) -> Result<String, rusqlite::Error> {
+    let oz = |x: Option<i64>| opt(x.map(|v| format!("{}", v)));
+    let (mid, status, fee, change, pf, ti, tm, ivl, thr): (i64, String, i64, Option<i64>, i64, i64, i64, i64, i64) = conn.query_row(
+        &format!("SELECT id, status, note_split_fee_buffer, note_split_change, note_split_prep_fees, note_split_total_input,
+                         note_split_total_migratable, anchor_bucket_interval, replan_threshold FROM {} ORDER BY id DESC LIMIT 1", t[0]),
         [],
-        |r| Ok((r.get(0)?, r.get(1)?, r.get(2)?, r.get(3)?)),
+        |r| Ok((r.get(0)?, r.get(1)?, r.get(2)?, r.get(3)?, r.get(4)?, r.get(5)?, r.get(6)?, r.get(7)?, r.get(8)?)),
     )?;
     let st = match status.as_str() {
         "planning" => "Planning",
@@ -670,15 +762,35 @@ fn dump_rows(conn: &rusqlite::Connection, t: &(String, String, String)) -> Resul
         "cancelled" => "Cancelled",
         _ => "UnknownStatus",
     };
-    let oz = |x: Option<i64>| opt(x.map(|v| format!("{}", v)));
-    let mut stmt = conn.prepare(&format!(
+    let parent = format!("(MkParent {} {} {} {} {} {} {} {})", st, fee, oz(change), pf, ti, tm, ivl, thr);
+    let q = |sql: String, f: &dyn Fn(&rusqlite::Row) -> rusqlite::Result<String>| -> Result<String, rusqlite::Error> {
+        let mut stmt = conn.prepare(&sql)?;
+        let v: Vec<String> = stmt.query_map([mid], |r| f(r))?.collect::<Result<_, _>>()?;
+        Ok(list(v))
+    };
+    let cross = q(format!("SELECT ordinal, value FROM {} WHERE migration_id = ? ORDER BY rowid", t[3]),
+        &|r| Ok(format!("MkOrd {}%nat {}", r.get::<_, i64>(0)?, r.get::<_, i64>(1)?)))?;
+    let pin = q(format!("SELECT layer, tx_index, ordinal, source, wallet_index, prior_layer, prior_transaction, prior_output, value FROM {} WHERE migration_id = ? ORDER BY rowid", t[4]),
+        &|r| {
+            let src: String = r.get(3)?;
+            Ok(format!("MkPin {}%nat {}%nat {}%nat {} {} {} {} {} {}", r.get::<_, i64>(0)?, r.get::<_, i64>(1)?, r.get::<_, i64>(2)?,
+                match src.as_str() { "wallet" => "SWallet", "prior" => "SPrior", _ => "SUnknown" },
+                oz(r.get(4)?), oz(r.get(5)?), oz(r.get(6)?), oz(r.get(7)?), r.get::<_, i64>(8)?))
+        })?;
+    let pout = q(format!("SELECT layer, tx_index, ordinal, role, value FROM {} WHERE migration_id = ? ORDER BY rowid", t[5]),
+        &|r| {
+            let role: String = r.get(3)?;
+            Ok(format!("MkPout {}%nat {}%nat {}%nat {} {}", r.get::<_, i64>(0)?, r.get::<_, i64>(1)?, r.get::<_, i64>(2)?,
+                match role.as_str() { "funding" => "RFunding", "intermediate" => "RIntermediate", "change" => "RChange", _ => "RUnknown" },
+                r.get::<_, i64>(4)?))
+        })?;
+    let direct = q(format!("SELECT ordinal, wallet_index, value FROM {} WHERE migration_id = ? ORDER BY rowid", t[6]),
+        &|r| Ok(format!("MkDir {}%nat {} {}", r.get::<_, i64>(0)?, r.get::<_, i64>(1)?, r.get::<_, i64>(2)?)))?;
+    let rows = q(format!(
         "SELECT transfer_id, kind, kind_layer, kind_index, kind_crossing, scheduled_height, expiry_height,
                 anchor_boundary, state, txid, mined_height, unsatisfiable_at, unsatisfiable_kind, broadcast_failure_at
-           FROM {} WHERE migration_id = ? ORDER BY rowid",
-        t.1
-    ))?;
-    let rows: Vec<String> = stmt
-        .query_map([mid], |r| {
+           FROM {} WHERE migration_id = ? ORDER BY rowid", t[1]),
+        &|r| {
             let kind: String = r.get(1)?;
             let state: String = r.get(8)?;
             let txid: Option<Vec<u8>> = r.get(9)?;
@@ -687,49 +799,43 @@ fn dump_rows(conn: &rusqlite::Connection, t: &(String, String, String)) -> Resul
                 "MkRow {} {} {} {} {} {} {} {} {} {} {} {} {} {}",
                 r.get::<_, i64>(0)?,
                 match kind.as_str() { "preparation" => "NPrep", "transfer" => "NTransfer", _ => "NUnknownKind" },
-                oz(r.get(2)?),
-                oz(r.get(3)?),
-                oz(r.get(4)?),
-                r.get::<_, i64>(5)?,
-                r.get::<_, i64>(6)?,
-                oz(r.get(7)?),
+                oz(r.get(2)?), oz(r.get(3)?), oz(r.get(4)?),
+                r.get::<_, i64>(5)?, r.get::<_, i64>(6)?, oz(r.get(7)?),
                 match state.as_str() {
-                    "awaiting_signature" => "NAwaiting",
-                    "signed" => "NSigned",
-                    "proved" => "NProved",
-                    "broadcast" => "NBroadcast",
-                    "mined" => "NMined",
-                    _ => "NUnknownState",
+                    "awaiting_signature" => "NAwaiting", "signed" => "NSigned", "proved" => "NProved",
+                    "broadcast" => "NBroadcast", "mined" => "NMined", _ => "NUnknownState",
                 },
                 opt(txid.map(|b| format!("{}", u32::from_le_bytes([b[0], b[1], b[2], b[3]])))),
-                oz(r.get(10)?),
-                oz(r.get(11)?),
+                oz(r.get(10)?), oz(r.get(11)?),
                 opt(uk.map(|k| match k.as_str() {
-                    "inputs_spent" => "KSpent",
-                    "inputs_invalidated" => "KInvalidated",
-                    "anchor_invalidated" => "KAnchor",
-                    "inherited" => "KInherited",
-                    _ => "KUnknown",
+                    "inputs_spent" => "KSpent", "inputs_invalidated" => "KInvalidated",
+                    "anchor_invalidated" => "KAnchor", "inherited" => "KInherited", _ => "KUnknown",
                 }.to_string())),
                 oz(r.get(13)?)
             ))
-        })?
-        .collect::<Result<_, _>>()?;
-    let mut stmt = conn.prepare(&format!(
-        "SELECT transfer_id, ordinal, depends_on_transfer_id FROM {} WHERE migration_id = ? ORDER BY rowid",
-        t.2
-    ))?;
-    let deps: Vec<String> = stmt
-        .query_map([mid], |r| Ok(format!("MkDep {} {}%nat {}", r.get::<_, i64>(0)?, r.get::<_, i64>(1)?, r.get::<_, i64>(2)?)))?
-        .collect::<Result<_, _>>()?;
-    Ok(format!("{} {} {} {} {}", st, thr, ivl, list(rows), list(deps)))
+        })?;
+    let pays = q(format!("SELECT transfer_id, pczt, lock_owner FROM {} WHERE migration_id = ? ORDER BY rowid", t[1]),
+        &|r| {
+            let pczt: Vec<u8> = r.get(1)?;
+            let lock: Option<Vec<u8>> = r.get(2)?;
+            Ok(format!("MkTxPay {} {} {}", r.get::<_, i64>(0)?, fnv(&pczt), opt(lock.map(|b| fnv(&b)))))
+        })?;
+    let deps = q(format!("SELECT transfer_id, ordinal, depends_on_transfer_id FROM {} WHERE migration_id = ? ORDER BY rowid", t[2]),
+        &|r| Ok(format!("MkDep {} {}%nat {}", r.get::<_, i64>(0)?, r.get::<_, i64>(1)?, r.get::<_, i64>(2)?)))?;
+    let nfs = q(format!("SELECT transfer_id, ordinal, nullifier FROM {} WHERE migration_id = ? ORDER BY rowid", t[7]),
+        &|r| {
+            let b: Vec<u8> = r.get(2)?;
+            Ok(format!("MkNf {} {}%nat {}", r.get::<_, i64>(0)?, r.get::<_, i64>(1)?, fnv(&b)))
+        })?;
+    Ok(format!("(MkTables {} {} {} {} {} {} {} {} {})", parent, cross, pin, pout, direct, rows, pays, deps, nfs))
 }
+
 impl<'a> Persist<'a> {
     /// Save with `replace_migration`, load back, compare; count live migrations.
     fn roundtrip(&mut self, s: &MigrationState) -> ((bool, bool, bool, bool), String) {
         let r = self.roundtrip_inner(s);
         let d = dump_rows(&*self.conn, self.tables).unwrap_or_else(|e| format!("DumpFailed_{:?}", e).replace(' ', "_"));
-        (r, d)
+        (r, format!("{} {}", p_extra(s), d))
     }
     fn roundtrip_inner(&mut self, s: &MigrationState) -> (bool, bool, bool, bool) {
         let t0 = std::time::Instant::now();
@@ -790,7 +896,7 @@ fn ids_of(s: &MigrationState) -> Vec<u32> {
 fn emit(pre: &str, ev: String, post: &MigrationState, out: String, pers: Option<((bool, bool, bool, bool), String)>) {
     let p = match pers {
         None => "PNone".to_string(),
-        Some(((a, b, c, m), d)) => format!("(PRows {} {} {} {} {})", boolc(a), boolc(b), boolc(c), boolc(m), d),
+        Some(((a, b, c, m), d)) => format!("(PFull {} {} {} {} {})", boolc(a), boolc(b), boolc(c), boolc(m), d),
     };
     case(format!("Case {} {} {} {} {}", pre, ev, p_state(post), out, p));
 }
@@ -1277,15 +1383,15 @@ fn main() {
     let mut r = Rng::new(a.seed, 18);
     // table names: regenerated from orchard_ironwood.rs by vlib/props/c18.py and passed in; the
     // built-in names are only a fallback for manual runs
-    let tables: (String, String, String) = {
-        let mut t = (
-            "orchard_ironwood_migrations".to_string(),
-            "orchard_ironwood_migration_transactions".to_string(),
-            "orchard_ironwood_migration_transaction_deps".to_string(),
-        );
+    let tables: Vec<String> = {
+        let mut t: Vec<String> = ["s", "_transactions", "_transaction_deps", "_crossing_values", "_prep_inputs", "_prep_outputs", "_prep_direct_funding", "_spend_nullifiers"]
+            .iter()
+            .map(|x| format!("orchard_ironwood_migration{}", x))
+            .collect();
         if let Some(i) = a.rest.iter().position(|x| x == "--tables") {
-            let v: Vec<&str> = a.rest[i + 1].split(',').collect();
-            t = (v[0].to_string(), v[1].to_string(), v[2].to_string());
+            let v: Vec<String> = a.rest[i + 1].split(',').map(|x| x.to_string()).collect();
+            assert_eq!(v.len(), 8, "--tables needs 8 names");
+            t = v;
         }
         t
     };
